@@ -12,6 +12,7 @@
 import YashModel.Common.Proto
 import YashModel.Executor.Model
 import YashModel.Executor.Spec
+import YashModel.Executor.NestedModel
 open YashModel YashModel.Executor YashModel.Proto
 
 def parseAction (t : String) : Option Action :=
@@ -184,6 +185,7 @@ def vOp (nch : Nat) (r : VRun) (op : XOp) : VRun :=
       | some (_, tok, _) => tok
     | .rus =>
       if x.dead then "u:x" else
+      if stallBound x.s > maxSteps then "u:budget-below-bound" else
       let res := runUntilStalled maxSteps x.s 0
       let polls := (x'.s.log.drop x.s.log.length).filterMap fun
         | .ret t b => some s!"{t}{if b then "r" else "p"}"
@@ -260,7 +262,58 @@ def runF (rest : String) : String :=
     let ok := f.got.length ≤ 1 && f.got.all (· == 7) && f.woken 0 + f.woken 1 ≤ 1 && !f.bad
     s!"{" ".intercalate toks.reverse} | woken={f.woken 0},{f.woken 1} held={f.held 0},{f.held 1}\t{if ok then "ok" else "FAIL:forwarder"}"
 
+/-! ### `n` cases: `Executor::step` from inside a poll -/
+
+open YashModel.Executor.Nested in
+def parseNAct (t : String) : Option NAct :=
+  match t.toList with
+  | ['Y'] => some .yield
+  | ['N'] => some .nest
+  | ['C'] => some .complete
+  | 'w' :: r => (String.ofList r).toNat?.map .wake
+  | _ => none
+
+open YashModel.Executor.Nested in
+def parseNScript (t : String) : Option NScript :=
+  let ws := words t
+  if ws = ["-"] then some [] else ws.mapM parseNAct
+
+open YashModel.Executor.Nested in
+def showNEv : NEv → String
+  | .enter t => s!"e{t}"
+  | .exit t b => s!"x{t}{if b then "r" else "p"}"
+  | .noop _ => "~"
+  | .guard _ => "G"
+  | .idle => "i"
+
+open YashModel.Executor.Nested in
+/-- top-level steps until the stall, the panic of the recursion guard, or the budget -/
+def runNObs : Nat → NState → List String → Option String → NState × List String × Option String × String
+  | 0, s, toks, v => (s, toks.reverse, v, if s.queue.isEmpty then "stall" else "cut")
+  | n + 1, s, toks, v =>
+    match nStep s with
+    | none => (s, toks.reverse, v, if s.panicked then "panic" else "stall")
+    | some s' =>
+      let evs := (s'.log.drop s.log.length).map showNEv
+      let toks' := (if s'.panicked then [] else [s!"|{s'.queue.length}"]) ++ evs.reverse ++ toks
+      let v' := match v with
+        | some e => some e
+        | none => (nCheck s').map fun e => s!"{e}@{toks'.length}"
+      if s'.panicked then (s', toks'.reverse, v', "panic") else runNObs n s' toks' v'
+
+open YashModel.Executor.Nested in
+def runN (rest : String) : String :=
+  match (splitTrim rest "/").mapM parseNScript with
+  | none => "bad-case\t-"
+  | some scripts =>
+    let s0 := nInit scripts
+    let (s, toks, v, how) := runNObs maxSteps s0 [] ((nCheck s0).map fun e => s!"{e}@0")
+    let dn := (List.range s.ntasks).filter fun t => s.log.contains (.exit t true)
+    let obs := s!"{" ".intercalate toks} | wc={s.queue.length} end={how} done={if dn.isEmpty then "-" else ".".intercalate (dn.map toString)}"
+    obs ++ "\t" ++ (match v with | some e => s!"FAIL:{e}" | none => "ok")
+
 def runLine (line : String) : String :=
+  if line.startsWith "n " then runN (line.drop 2).toString else
   if line.startsWith "x " then runExtra (line.drop 2).trimAscii.toString else
   if line.startsWith "v " then runV (line.drop 2).toString else
   if line == "f" || line.startsWith "f " then runF (line.drop 1).toString else
@@ -272,7 +325,8 @@ def runLine (line : String) : String :=
       | some roots, some scripts =>
         if m ≠ "d" ∧ m ≠ "s" then "bad-case\t-" else
         let s0 := init (m == "s") scripts roots
-        let v0 := (checkB s0).map (fun e => s!"{e}@0")
+        -- `run_until_stalled_terminates`: within this bound the loop always reaches the stall
+        let v0 := if stallBound s0 > maxSteps then some "budget-below-bound" else (checkB s0).map (fun e => s!"{e}@0")
         let (s, toks, compl, v, stalled) := runObs maxSteps s0 [] 0 v0
         let rus := runUntilStalled maxSteps s0 0
         let dn := completionOrder s.log
